@@ -78,6 +78,8 @@ def to_py(v):
     if t == "float":
         return float(v["f"])
     if t == "big":
+        if v["d"].lstrip("-") == "HUGE":       # beyond sys.get_int_max_str_digits()
+            return (-1 if v["d"].startswith("-") else 1) * 10 ** 5000
         return int(v["d"])
     if t == "dec":
         from decimal import Decimal
